@@ -206,8 +206,15 @@ func (e *scEnv) waitK(ch chan int, what string) int {
 func (e *scEnv) finish(closeServer bool) {
 	e.t.Helper()
 	if closeServer {
-		if err := e.s.Close(); err != nil {
-			e.t.Errorf("Close: %v", err)
+		ret := make(chan error, 1)
+		go func() { ret <- e.s.Close() }()
+		select {
+		case err := <-ret:
+			if err != nil {
+				e.t.Errorf("Close: %v", err)
+			}
+		case <-time.After(scWatchdog):
+			e.hang("Server.Close did not return")
 		}
 	}
 	select {
